@@ -56,7 +56,14 @@ def main():
             sh(f"git -C /repo worktree remove --force {wt}")
             shutil.rmtree(wt, ignore_errors=True)
             sh("git -C /repo worktree prune")
-        json.dump(results, open(resp, "w"), indent=1, sort_keys=True)
+        # several refrun processes may run side by side: merge this item into the file under a lock
+        import fcntl
+        with open(os.path.join(ROOT, "work", ".refrun_results.lock"), "w") as lk:
+            fcntl.flock(lk, fcntl.LOCK_EX)
+            on_disk = json.load(open(resp)) if os.path.exists(resp) else {}
+            if name in results:
+                on_disk[name] = results[name]
+            json.dump(on_disk, open(resp, "w"), indent=1, sort_keys=True)
 
 
 main()
